@@ -56,7 +56,9 @@ def _nf(repo, f):
 
     if f.module.name != "gaftools.gfa":
         return f
-    return tail_inlined(repo, f, keep=lambda c: not c.name.startswith("_") or c.name.startswith("__"))
+    from ..core import detuple
+
+    return detuple(repo, tail_inlined(repo, f, keep=lambda c: not c.name.startswith("_") or c.name.startswith("__")))
 
 
 def r15_1(ctx, g):
@@ -83,7 +85,9 @@ def r15_1(ctx, g):
             if isinstance(c, ast.Assign):
                 for t in c.targets:
                     if isinstance(t, ast.Attribute) and t.attr in ("start", "end") and f.module.name == "gaftools.gfa" and not (f.cls == "Node" and f.name == "__init__"):
-                        if f.qualname == "GFA.graph_from_comp":
+                        fresh = isinstance(t.value, ast.Name) and any(isinstance(a, ast.Assign) and norm(a.targets[0]) == t.value.id and isinstance(a.value, ast.Call) and norm(a.value.func) == "Node" for a in walk_own(f.node))
+                        if fresh:
+                            # a node object created in this function receives the sets of an existing node (sub-graph view)
                             ctx.notes.append(f"shared-storage hand-out: {norm(c)} in {f.qualname} (the sub-graph aliases the adjacency sets of the parent graph)")
                         else:
                             viol.append((f, c))
@@ -517,6 +521,10 @@ def r15_8(ctx, g):
                 d = [st for st in w.body if isinstance(st, ast.Assign) and norm(st.targets[0]) == it.id]
                 src = norm(d[-1].value) if d else src
             src_ok = src.endswith(".neighbors()") and cur in src and pushes and norm(pushes[0].args[0]) == norm(exp_loops[0].target)
+        # work.extend(<cur>.neighbors()) pushes all neighbours at once
+        ext = [c for c in ast.walk(w) if isinstance(c, ast.Call) and isinstance(c.func, ast.Attribute) and c.func.attr == "extend" and norm(c.func.value) == work and c.args and norm(c.args[0]).endswith(".neighbors()") and cur in norm(c.args[0])]
+        if ext and not exp_loops:
+            src_ok = True
         paths = enum_paths(w.body, rule="R15.8", where=f.where(w))
         rets = [r for r in f.node.body if isinstance(r, ast.Return) and isinstance(r.value, ast.Name)]
         if not rets:
@@ -525,7 +533,7 @@ def r15_8(ctx, g):
         bad = None
         for p in paths:
             adds = [e for e in p.events if e.kind == "stmt" and isinstance(e.node, ast.Expr) and isinstance(e.node.value, ast.Call) and isinstance(e.node.value.func, ast.Attribute) and e.node.value.func.attr in ("add", "append") and norm(e.node.value.args[0]) == cur and norm(e.node.value.func.value) == result]
-            expanded = any(e.kind == "loop" and any(e.node is l for l in exp_loops) for e in p.events)
+            expanded = any(e.kind == "loop" and any(e.node is l for l in exp_loops) for e in p.events) or any(e.kind == "stmt" and any(x is c_ for c_ in ext for x in ast.walk(e.node)) for e in p.events)
             if expanded and not adds:
                 bad = (p, "a node is expanded without being added to the result")
             if adds and not expanded and p.term in ("fall", "loopback", "continue"):
